@@ -635,6 +635,16 @@ func handleAddition(left, right interface{}, operator token.Token) interface{} {
 	// Handle number addition and string concatenation
 	switch l := left.(type) {
 	case int64, float64:
+		// A string on the right means concatenation, exactly as a string on the left does; the number is
+		// rendered as print shows it. (Previously a numeric-looking string such as "2" was added instead.)
+		switch r := right.(type) {
+		case string:
+			leftStr, _ := stringifyOperand(left)
+			return leftStr + r
+		case []rune:
+			leftStr, _ := stringifyOperand(left)
+			return leftStr + string(r)
+		}
 		leftNum, err := toNumber(left)
 		if err != nil {
 			utils.RuntimeError(operator, "Left operand must be a number.")
